@@ -6,6 +6,7 @@ import (
 	"go/token"
 	"regexp"
 	"sort"
+	"strconv"
 	"strings"
 
 	"golang.org/x/tools/go/ssa"
@@ -257,6 +258,57 @@ func c01Commands(ctx *core.Ctx) {
 	// ---- V16: a condition's answer depends on the script's own state only through the cache key
 	ctx.Rule("V16", "condition caching: the process-wide cache behind [exec:prog] is keyed on every TestScript field its computation reads (C04.I8): otherwise a guard is answered with another script's or an earlier environment's result and the line is wrongly skipped or run", 1)
 	cacheKeyRule(ctx, "V16")
+	// ---- V18: the background specifier pattern, evaluated as a constant
+	ctx.Rule("V18", "the pattern that decides whether exec's last argument is a background specifier is anchored: evaluated as a constant it accepts \"&\" and \"&name&\" and nothing else; an argument that merely ends in '&' (a URL query, a shell snippet) must stay an argument, or the command runs in the background and its exit status is never demanded", 1)
+	{
+		pat := ""
+		if init := p.Pkg("testscript").Func("init"); init != nil {
+			// the pattern whose compiled value is consulted by the exec command
+			cands := map[*ssa.Global]string{}
+			graph(p, init).Instrs(func(i ssa.Instruction) {
+				st, ok := i.(*ssa.Store)
+				if !ok {
+					return
+				}
+				gl, isG := st.Addr.(*ssa.Global)
+				c, isC := st.Val.(*ssa.Call)
+				if isG && isC && ssax.CalleeName(&c.Call) == "regexp.MustCompile" {
+					if s, ok := ssax.ConstString(c.Call.Args[0]); ok {
+						cands[gl] = s
+					}
+				}
+			})
+			if ex := p.Func("testscript", "(*TestScript).cmdExec"); ex != nil {
+				graph(p, ex).Instrs(func(i ssa.Instruction) {
+					if c, ok := i.(*ssa.Call); ok && strings.HasPrefix(ssax.CalleeName(&c.Call), "(*regexp.Regexp).Match") {
+						if u, ok := c.Call.Args[0].(*ssa.UnOp); ok {
+							if gl, ok := u.X.(*ssa.Global); ok && cands[gl] != "" {
+								pat = cands[gl]
+							}
+						}
+					}
+				})
+			}
+		}
+		if pat == "" {
+			ctx.Unknown("V18", "testscript#background-specifier", token.NoPos, "no constant pattern consulted by the exec command was found")
+		} else if re, err := regexp.Compile(pat); err != nil {
+			ctx.Bad("V18", "testscript#background-specifier", token.NoPos, "pattern does not compile: %v", err)
+		} else {
+			bad := ""
+			for _, s := range []string{"&", "&srv&", "&a_1&"} {
+				if !re.MatchString(s) {
+					bad = "specifier " + strconv.Quote(s) + " not recognised"
+				}
+			}
+			for _, s := range []string{"x&", "http://h/?a=1&", "a=1&b&", "&&", "&a&b", "& ", "", "a", "&a b&"} {
+				if re.MatchString(s) {
+					bad = "argument " + strconv.Quote(s) + " is taken for a background specifier"
+				}
+			}
+			ctx.Check(bad == "", "V18", "testscript#background-specifier", token.NoPos, "the constant pattern %q accepts exactly the documented specifier forms %s", pat, bad)
+		}
+	}
 	// ---- V17: skip checks the status of background commands first
 	ctx.Rule("V17", "skip settles background commands like wait does: on the way to T.Skip the background commands are waited for with their exit status checked (waitBackground(true), directly or through the wait command)", 1)
 	if sk := cmds["skip"]; sk != nil {
